@@ -429,11 +429,9 @@ func (be *BinaryExpression) WriteTo(cw *CodeWriter) {
 	// Left side needs parens if its precedence is lower than ours
 	leftNeedsParens := be.Left.Precedence() < myPrecedence
 	if leftNeedsParens {
-		cw.WriteRune('(')
-	}
-	be.Left.WriteTo(cw)
-	if leftNeedsParens {
-		cw.WriteRune(')')
+		writeParenthesized(cw, be.Left)
+	} else {
+		be.Left.WriteTo(cw)
 	}
 
 	cw.WriteSpace()
@@ -446,11 +444,9 @@ func (be *BinaryExpression) WriteTo(cw *CodeWriter) {
 	// For example: 1-2-3 should be ((1-2)-3) not (1-(2-3))
 	rightNeedsParens := be.Right.Precedence() <= myPrecedence
 	if rightNeedsParens {
-		cw.WriteRune('(')
-	}
-	be.Right.WriteTo(cw)
-	if rightNeedsParens {
-		cw.WriteRune(')')
+		writeParenthesized(cw, be.Right)
+	} else {
+		be.Right.WriteTo(cw)
 	}
 }
 
@@ -474,9 +470,7 @@ func (ue *UnaryExpression) WriteTo(cw *CodeWriter) {
 	cw.WriteString(ue.Operator)
 	// Right side needs parens if its precedence is lower than unary
 	if ue.Right.Precedence() < PrecedenceUnary {
-		cw.WriteRune('(')
-		ue.Right.WriteTo(cw)
-		cw.WriteRune(')')
+		writeParenthesized(cw, ue.Right)
 	} else {
 		ue.Right.WriteTo(cw)
 	}
@@ -496,9 +490,7 @@ func (pe *PostfixExpression) WriteTo(cw *CodeWriter) {
 	cw.WriteLeadingComments(pe.Token.LeadingComments)
 	// Left side needs parens if its precedence is lower than postfix
 	if pe.Left.Precedence() < PrecedencePostfix {
-		cw.WriteRune('(')
-		pe.Left.WriteTo(cw)
-		cw.WriteRune(')')
+		writeParenthesized(cw, pe.Left)
 	} else {
 		pe.Left.WriteTo(cw)
 	}
@@ -523,6 +515,18 @@ func (ge *GroupedExpression) WriteTo(cw *CodeWriter) {
 	cw.IncreaseIndent()
 	ge.Expression.WriteTo(cw)
 	cw.WriteLeadingComments(ge.RParen.LeadingComments)
+	cw.DecreaseIndent()
+	cw.WriteRune(')')
+}
+
+// writeParenthesized writes an operand that the printer has to parenthesise
+// the way an explicit GroupedExpression is written (the operand is indented
+// one level), so that re-parsing the output and printing it again gives the
+// same text.
+func writeParenthesized(cw *CodeWriter, e Expression) {
+	cw.WriteRune('(')
+	cw.IncreaseIndent()
+	e.WriteTo(cw)
 	cw.DecreaseIndent()
 	cw.WriteRune(')')
 }
